@@ -18,6 +18,20 @@ Definition rem64 a b := Z.rem a b.
 Definition conv_int64 (a : Z) := wrap64 a.
 Definition conv_uint64 (a : Z) := wrapu64 a.
 
+(* Go's comparison of strings: "lexically byte-wise" (language spec, Comparison operators) *)
+Fixpoint str_ltb (a b : list N) : bool :=
+  match a, b with
+  | _, [] => false
+  | [], _ :: _ => true
+  | x :: a', y :: b' => if N.ltb x y then true else if N.ltb y x then false else str_ltb a' b'
+  end.
+Fixpoint str_eqb (a b : list N) : bool :=
+  match a, b with
+  | [], [] => true
+  | x :: a', y :: b' => N.eqb x y && str_eqb a' b'
+  | _, _ => false
+  end.
+
 Definition len64 {A} (s : list A) : Z := Z.of_nat (length s).
 
 (* s[lo:hi]; None when Go would panic (bounds out of range) *)
